@@ -71,11 +71,11 @@ CHECKS = {
              "storage damages records and pushed through the login path -- identify, verify, needs_update, verify_and_update on the bare handler "
              "and on the context, as text and bytes. identify must answer without raising; everything else answers or raises ValueError/TypeError; "
              "if the original password still verifies, an independent extractor must decode the same cost, salt bits, digest bits and variant from "
-             "both strings (value-exact; accepted spellings: hex case, padding bits, '=' padding at the end, the blanks / '+' / '_' the extractor's own decimal patterns allow, bcrypt "
+             "both strings (value-exact; accepted spellings: hex case, padding bits, '=' padding at the end, zero padding where a format allows it, bcrypt "
              "2a/2b/2y, LDAP scheme-name case, and the two equivalences MS-SQL 2000 documents: only the upper-case digest takes part in "
              "verification, and the record's first 54 characters are the MS-SQL 2005 hash of the same password). Damage kinds added in round 10: a letter pair replaced by the non-ASCII character that case-maps onto it (ligature ff, long s ...), the bytes a hexadecimal record spells handed over as bytes; the substitution / insertion alphabet holds newline, CR, TAB, '!', signs and non-ASCII digits. Thorough: every position x 21 substitute bytes, all deletions, duplications, insertions, truncations per record.",
         note="In a quarter of the runs the simulated host's crypt(3) knows none of the formats, so the pure-Python backends serve (elsewhere: this image's libcrypt). Bounded: palette formats only, single faults (15% cumulative); records whose damaged cost field asks for > ~30000 rounds / bcrypt cost > 8 are "
-             "counted but not pushed through verify. Known finding F39 (decimal fields read with int(): blanks, sign, non-ASCII digits) is printed as KNOWN-FINDING; the cause is established by re-spelling the numbers and re-extracting, any other altered string that verifies is a VIOLATION.",
+             "counted but not pushed through verify. The extractor takes ASCII digits only in decimal fields (F39, repaired: passlib used to read them with int()).",
         design_ref="DESIGN.md section 4 and Appendix C, C08"),
     "C09": dict(
         level="exploration",
